@@ -200,6 +200,26 @@ def job_parsesubsec(L):
         ex.call(st, F, [p, out], k)
     return ex.execute(h)
 
+def job_parsesubsec_digits(nd=17):
+    """ParseSubSeconds on nd-digit runs (all digit values symbolic) followed by a non-digit: digits beyond the 15th are consumed and
+    dropped - no rounding, no carry"""
+    ex = new_ex(); F = fn(r"anonymous namespace\)::ParseSubSeconds\(")
+    def h(ex, st):
+        p, bs = sym_input(ex, st, nd + 1)
+        for b in bs[:nd]: ex.assume(st, and_(le(48, b), le(b, 57)))
+        ex.assume(st, or_(lt(bs[nd], 48), gt(bs[nd], 57)))
+        out = ex.new_obj(st, 8, "femtoseconds"); ex.store_raw(st, out, 8, ex.fresh("prefill"))
+        def k(st, rv):
+            real_ok = isinstance(rv, Ptr) and rv.obj is not None
+            ex.prove(st, real_ok, "ParseSubSeconds accepts a run of %d digits" % nd)
+            if real_ok:
+                ex.prove(st, rv.off == nd, "ParseSubSeconds consumes the whole digit run (digits beyond femtoseconds are dropped, not rejected)")
+                v = 0
+                for i in range(15): v = add(mul(v, 10), sub(bs[i], 48))
+                ex.prove(st, eq(ex.load(st, out, I64), v), "ParseSubSeconds: value is exactly the first 15 digits (truncated, not rounded)")
+        ex.call(st, F, [p, out], k)
+    return ex.execute(h)
+
 def job_parseoffset(mode, L):
     ex = new_ex(); F = fn(r"anonymous namespace\)::ParseOffset\(")
     def h(ex, st):
